@@ -23,7 +23,7 @@ func init() {
 	engine.Register(&engine.Check{
 		ID:        "C16",
 		Technique: "explicit-state search: every operation sequence up to a depth on the real buffer types (then state-deduplicated BFS deeper) compared step by step with a plain byte-string reference",
-		Rule:      "all chunkings of n<=N distinct bytes into <=4 chunks (empty chunks included) x all sequences over {TrimFront(c), CapLength(l), RemoveFirst, Clone(nil|small|large), read-backs} on the original and its clone; View and Prependable likewise; distinct = distinct sequence, all non-trivial",
+		Rule:      "all chunkings of n<=N distinct bytes into <=4 chunks (empty chunks included) x all sequences over {TrimFront(c), CapLength(l), RemoveFirst, Clone(nil|small|large|empty scratch with capacity|used scratch with stale views), read-backs} on the original and its clone; View and Prependable likewise; distinct = distinct sequence, all non-trivial",
 		Assumes:   []string{"View.TrimFront/CapLength are only called with counts within the current length (beyond it a plain byte slice panics as well)"},
 		Jobs:      c16Jobs,
 		Run:       c16Run,
@@ -138,9 +138,9 @@ func c16NewVV(chunks []int) func() engine.SeqSys {
 			s.ops = append(s.ops, c16Op{'R', obj, 0})
 			s.names = append(s.names, fmt.Sprintf("o%d.RemoveFirst()", obj))
 		}
-		for k := 0; k < 3; k++ {
+		for k := 0; k < 5; k++ {
 			s.ops = append(s.ops, c16Op{'K', 0, k})
-			s.names = append(s.names, fmt.Sprintf("o1=o0.Clone(%s)", []string{"nil", "small buffer", "large buffer"}[k]))
+			s.names = append(s.names, fmt.Sprintf("o1=o0.Clone(%s)", []string{"nil", "small buffer", "large buffer", "empty scratch slice with capacity 8", "used scratch slice of length 1, capacity 6, stale views behind it"}[k]))
 		}
 		return s
 	}
@@ -227,6 +227,14 @@ func (s *c16VV) Apply(i int) *engine.Violation {
 			buf = make([]buffer.View, 1)
 		case 2:
 			buf = make([]buffer.View, 8)
+		case 3:
+			buf = make([]buffer.View, 0, 8)
+		case 4:
+			scratch := make([]buffer.View, 6)
+			for i := range scratch {
+				scratch[i] = buffer.View("STALE")
+			}
+			buf = scratch[:1]
 		}
 		s.objs[1] = c16Obj{vv: x.vv.Clone(buf), alive: true, capped: x.capped}
 		for _, ch := range x.ref {
